@@ -765,6 +765,9 @@ class SqliteCaseReader(BaseCaseReader):
                         cases = self._list_cases_recurse_flat(source, out_stream=None)
                     else:
                         return self._list_cases_recurse_nested(source)
+                else:
+                    # just the case itself (get_case raises if there is no such case)
+                    cases = [self.get_case(source).name]
             else:
                 raise RuntimeError('Source not found: %s' % source)
 
